@@ -117,4 +117,32 @@ theorem closestOrientation_uses_source (m : M3) : closestOrientation m = closest
 `affineFromComponents` hard-codes) -/
 theorem components_require_unit : Gen.componentsRequireUnit.getD Gen.orthogonalDefaultRequireUnit = true := rfl
 
+
+/-! ## `_transform_affine_to_convention`: which convention each rule runs over -/
+
+def pickConv (c : Char) (f t : List Char) : List Char := if c = 'f' then f else t
+
+/-- `conventionPlan` assembled from the regenerated rules: the flip flags run over (iterated) and test membership in (tested); the
+permutation has one entry per letter of (iterated), looked up - itself or its opposite - in (searched) -/
+def conventionPlanSrc (fromC toC : List Char) : Except ErrKind (List Bool × List Nat) := do
+  let f ← normOrientation fromC
+  let t ← normOrientation toC
+  let fr := Gen.conventionFlipRule
+  let flips := (pickConv fr.1 f t).map (fun d => if fr.2.2 then !(pickConv fr.2.1 f t).contains d else (pickConv fr.2.1 f t).contains d)
+  let pr := Gen.conventionPermuteRule
+  let perm ← (pickConv pr.1 f t).mapM (fun d => do
+    if (pickConv pr.2 f t).contains d then indexOf (pickConv pr.2 f t) d
+    else do
+      let d' ← opposite d
+      indexOf (pickConv pr.2 f t) d')
+  pure (flips, perm)
+
+theorem conventionPlan_uses_source (fromC toC : List Char) : conventionPlan fromC toC = conventionPlanSrc fromC toC := rfl
+
+/-- `_transform_affine_matrix` negates the flagged reference rows BEFORE it permutes them (as `applyPlan` does), and
+`_transform_affine_to_convention` uses only these two of its four steps -/
+theorem transformOrder_flip_before_permute :
+    Gen.affineTransformOrder.idxOf "flip_reference" < Gen.affineTransformOrder.idxOf "permute_reference" ∧
+    Gen.affineTransformOrder.length = 4 := by decide
+
 end HdVerif.Affine
